@@ -453,7 +453,9 @@ func runC19(c *hx.Ctx) {
 	x.closeScripts()
 	x.concurrentCases()
 	if c.Thorough() {
-		x.loopbackC19()
+		x.loopbackC19(60)
+	} else {
+		x.loopbackC19(8)
 	}
 }
 
